@@ -41,7 +41,7 @@ def _shuf(text, msgs, what):
     return [int(g) for g in m.groups()]
 
 
-@extractor
+@extractor(soft=True)
 def cpu_paths(repo):
     msgs = []
     out = "-- GENERATED from /repo/alg/{crc32c,crc32c_sse42,sha256,sha256_sse2,sha256_shani}.c and\n"
